@@ -48,6 +48,44 @@ pub trait Printable {
 	fn print(&self, out: &mut PrintItems);
 }
 
+/// Source text that may span lines (string literals, unterminated comments) or contain tabs.
+/// The printer only accepts strings free of both, so they are sent as signals instead; line breaks
+/// inside the text are kept verbatim, without indentation.
+pub(crate) trait PushText {
+	fn push_text(&mut self, text: String);
+}
+impl PushText for PrintItems {
+	fn push_text(&mut self, text: String) {
+		use dprint_core::formatting::Signal;
+		if !text.contains(['\t', '\n']) {
+			self.push_string(text);
+			return;
+		}
+		let multi_line = text.contains('\n');
+		if multi_line {
+			self.push_signal(Signal::StartIgnoringIndent);
+		}
+		let mut rest = text.as_str();
+		while !rest.is_empty() {
+			let pos = rest.find(['\t', '\n']).unwrap_or(rest.len());
+			if pos != 0 {
+				self.push_string(rest[..pos].to_owned());
+			}
+			rest = &rest[pos..];
+			if let Some(tail) = rest.strip_prefix('\n') {
+				self.push_signal(Signal::NewLine);
+				rest = tail;
+			} else if let Some(tail) = rest.strip_prefix('\t') {
+				self.push_signal(Signal::Tab);
+				rest = tail;
+			}
+		}
+		if multi_line {
+			self.push_signal(Signal::FinishIgnoringIndent);
+		}
+	}
+}
+
 macro_rules! pi {
 	(@i; $($t:tt)*) => {{
 		#[allow(unused_mut)]
@@ -60,7 +98,10 @@ macro_rules! pi {
 		pi!(@s; $o: $($t)*);
 	}};
 	(@s; $o:ident: string($e:expr $(,)?) $($t:tt)*) => {{
-		$o.push_string($e);
+		{
+			use $crate::PushText as _;
+			$o.push_text($e);
+		}
 		pi!(@s; $o: $($t)*);
 	}};
 	(@s; $o:ident: nl $($t:tt)*) => {{
